@@ -1,6 +1,7 @@
 pub mod conc;
 pub mod flw;
 pub mod fmt;
+pub mod names;
 pub mod flwgen;
 pub mod spec;
 
@@ -18,11 +19,15 @@ pub fn generate(prop: &str, tier: &str, seed: u64) -> Vec<Vec<String>> {
         "C01" => flwgen::gen_c01(tier, seed),
         "C03" => conc::gen_c03(tier, seed),
         "C20" => fmt::gen_c20(tier, seed),
+        "C14n" => names::gen_names_cases("C14", tier, seed),
+        "C16n" => names::gen_names_cases("C16", tier, seed),
         "C06" => flwgen::gen_c06(tier, seed),
         "C07" => flwgen::gen_c07(tier, seed),
         "C08" => flwgen::gen_c08(tier, seed),
         "C09" => flwgen::gen_c09(tier, seed),
         "C15" => flwgen::gen_c15(tier, seed),
+        "C14" => flwgen::gen_c14(tier, seed),
+        "C16" => flwgen::gen_c16(tier, seed),
         "C18" => flwgen::gen_c18(tier, seed),
         "C19" => flwgen::gen_c19(tier, seed),
         _ => {
@@ -49,6 +54,7 @@ pub fn execute(ctx: &mut Ctx, lines: &[String]) -> Vec<(Vec<String>, Vec<String>
         "flw" => vec![(lines.to_vec(), flw::execute(ctx, lines))],
         "conc" => conc::execute(ctx, lines),
         "fmt" => vec![(lines.to_vec(), fmt::execute(ctx, lines))],
+        "names" => vec![(lines.to_vec(), names::execute(ctx, lines))],
         m => panic!("unknown model {m}"),
     }
 }
